@@ -573,10 +573,17 @@ func (vfs *OrefaFS) OpenFile(name string, flag int, perm fs.FileMode) (avfs.File
 	absPath, _ := vfs.Abs(name)
 	dirName, fileName := avfs.SplitAbs(vfs, absPath)
 
-	vfs.mu.RLock()
+	// The index is locked for the whole call : for writing if a file can be created or truncated.
+	if om&(avfs.OpenCreate|avfs.OpenTruncate) != 0 {
+		vfs.mu.Lock()
+		defer vfs.mu.Unlock()
+	} else {
+		vfs.mu.RLock()
+		defer vfs.mu.RUnlock()
+	}
+
 	parent, parentOk := vfs.nodes[dirName]
 	child, childOk := vfs.nodes[absPath]
-	vfs.mu.RUnlock()
 
 	if !childOk {
 		if !parentOk {
@@ -589,15 +596,6 @@ func (vfs *OrefaFS) OpenFile(name string, flag int, perm fs.FileMode) (avfs.File
 
 		if om&avfs.OpenCreate == 0 {
 			return (*OrefaFile)(nil), &fs.PathError{Op: op, Path: name, Err: vfs.err.NoSuchFile}
-		}
-
-		vfs.mu.Lock()
-		defer vfs.mu.Unlock()
-
-		// test for race conditions when opening file in exclusive mode.
-		_, childOk = vfs.nodes[absPath]
-		if childOk && om&avfs.OpenCreateExcl != 0 {
-			return (*OrefaFile)(nil), &fs.PathError{Op: op, Path: name, Err: vfs.err.FileExists}
 		}
 
 		child = vfs.createFile(parent, absPath, fileName, perm)
@@ -915,15 +913,13 @@ func (vfs *OrefaFS) stat(path, op string) (fs.FileInfo, error) {
 	absPath, _ := vfs.Abs(path)
 	dirName, _ := avfs.SplitAbs(vfs, absPath)
 
+	// The index stays locked while the node is read : the result is the state of one moment.
 	vfs.mu.RLock()
+	defer vfs.mu.RUnlock()
+
 	child, childOk := vfs.nodes[absPath]
-	vfs.mu.RUnlock()
-
 	if !childOk {
-		vfs.mu.RLock()
 		parent, parentOk := vfs.nodes[dirName]
-		vfs.mu.RUnlock()
-
 		if !parentOk {
 			return nil, &fs.PathError{Op: op, Path: path, Err: vfs.err.NoSuchDir}
 		}
